@@ -1,6 +1,878 @@
 package main
 
-// tryReplay turns a solver model into a run of the real code. Returns (reproduced, info).
-func tryReplay(prop, name string, o *Obligation, rec map[string]any) (bool, string) {
-	return false, ""
+// Replay: turning a failed obligation into a run of the real code.
+//
+// For functions whose inputs are plain data (integers, booleans, strings, byte slices; a receiver that can be built as
+// a zero value with plain fields) a failed obligation is followed up in three steps:
+//
+//  A. model search: the failed query is asked again without its quantified hypotheses (which make the solvers answer
+//     "unknown") and with small bounds on the lengths of the inputs; a model gives concrete inputs. Dropping hypotheses
+//     can only make the candidate spurious, never hide anything: the candidate is not believed, it is run.
+//  B. run: a test that calls the real function with those inputs is injected with `go test -overlay` (nothing is
+//     written to /repo) and prints what the function returned (or the panic).
+//  C. judge: for a postcondition, the clause is instantiated on the concrete inputs and the values the real code
+//     returned, with every hypothesis (also the quantified ones) present, and the solver is asked whether the clause can
+//     hold; "unsat" means the real code's answer contradicts the contract for this input: a confirmed counterexample.
+//     For a no-panic obligation (bounds, nil, division, nil map) the run panicking is the confirmation.
+//
+// Anything else (solver finds no model, the run does not violate the clause) leaves the obligation's verdict as it was
+// and the VIOLATION line keeps its no-failing-input-found suffix.
+
+import (
+	"bytes"
+	"context"
+	"encoding/hex"
+	"encoding/json"
+	"fmt"
+	"go/types"
+	"os"
+	"os/exec"
+	"path/filepath"
+	"sort"
+	"strconv"
+	"strings"
+	"time"
+)
+
+type rpVar struct {
+	Name  string // Go identifier of the parameter / field / result
+	Kind  string // int, uint, bool, string, bytes, error, ref (nil-ness only)
+	GoT   string // Go type text usable inside the function's package
+	Val   Val
+	Field bool
 }
+
+type replayTpl struct {
+	pkgDir   string
+	pkgName  string
+	fn       string // function name
+	recvT    string // "" for plain functions; type name
+	recvPtr  bool
+	recvVal  Val
+	fields   []rpVar
+	params   []rpVar
+	results  []rpVar
+	posts    map[string]Term
+	pc       []Term
+	variadic bool
+}
+
+func rpKind(T types.Type, pkg *types.Package) (kind, goT string, ok bool) {
+	T = types.Unalias(T)
+	name := func() (string, bool) {
+		switch t := T.(type) {
+		case *types.Basic:
+			return t.Name(), true
+		case *types.Named:
+			if t.Obj().Pkg() == pkg && t.TypeArgs().Len() == 0 {
+				return t.Obj().Name(), true
+			}
+			if t.Obj().Pkg() == nil {
+				return t.Obj().Name(), true
+			}
+		}
+		return "", false
+	}
+	if isSliceT(T) {
+		if b, isB := T.Underlying().(*types.Slice).Elem().Underlying().(*types.Basic); isB && b.Kind() == types.Uint8 {
+			if _, named := T.(*types.Named); !named {
+				return "bytes", "[]byte", true
+			}
+		}
+		return "", "", false
+	}
+	b, isB := T.Underlying().(*types.Basic)
+	if !isB {
+		return "", "", false
+	}
+	n, okN := name()
+	if !okN {
+		return "", "", false
+	}
+	switch {
+	case b.Info()&types.IsBoolean != 0:
+		return "bool", n, true
+	case b.Info()&types.IsUnsigned != 0:
+		return "uint", n, true
+	case b.Info()&types.IsInteger != 0:
+		return "int", n, true
+	case b.Info()&types.IsString != 0:
+		return "string", n, true
+	}
+	return "", "", false
+}
+
+// buildReplayTemplate records, for a function in the replayable subset, its postconditions instantiated over fresh
+// result values in the entry state.
+func (u *Unit) buildReplayTemplate(key string, env *specEnv, c *Contract) {
+	if u.parent != nil || strings.ContainsAny(key, "$@") || u.fnObj == nil || u.rejected != "" || u.entry == nil {
+		return
+	}
+	if u.sig.TypeParams().Len() > 0 || u.sig.RecvTypeParams().Len() > 0 {
+		return
+	}
+	if len(c.Modifies) > 0 || c.Flags["noframe"] != "" {
+		return // the judgement step evaluates the postcondition in the entry heap: only for functions that change nothing
+	}
+	pkg := u.pkg.Types
+	t := &replayTpl{pkgName: pkg.Name(), fn: u.fnObj.Name(), posts: map[string]Term{}}
+	if len(u.pkg.GoFiles) == 0 {
+		return
+	}
+	t.pkgDir = filepath.Dir(u.pkg.GoFiles[0])
+	if u.sig.Variadic() {
+		return
+	}
+	for i := 0; i < u.sig.Params().Len(); i++ {
+		p := u.sig.Params().At(i)
+		k, g, ok := rpKind(p.Type(), pkg)
+		if !ok || p.Name() == "" || p.Name() == "_" {
+			if p.Name() == "" || p.Name() == "_" {
+				// unnamed parameter: any value will do, but only for plain kinds
+				if ok {
+					t.params = append(t.params, rpVar{Name: "", Kind: k, GoT: g})
+					continue
+				}
+			}
+			return
+		}
+		v, have := env.vars[p.Name()]
+		if !have {
+			return
+		}
+		t.params = append(t.params, rpVar{Name: p.Name(), Kind: k, GoT: g, Val: v})
+	}
+	if r := u.sig.Recv(); r != nil {
+		rT := types.Unalias(r.Type())
+		if p, ok := rT.(*types.Pointer); ok {
+			t.recvPtr = true
+			rT = types.Unalias(p.Elem())
+		}
+		n, ok := rT.(*types.Named)
+		if !ok || n.Obj().Pkg() != pkg || n.TypeArgs().Len() > 0 {
+			return
+		}
+		s, ok := n.Underlying().(*types.Struct)
+		if !ok {
+			return
+		}
+		t.recvT = n.Obj().Name()
+		self, have := env.vars["self"]
+		if !have {
+			return
+		}
+		t.recvVal = self
+		// the receiver is built as a zero value with its plain fields set from the model: admissible only when the
+		// symbolic execution touched no other field (a field heap or embedded-object function of a non-plain field that
+		// was never declared was never read or written)
+		for i := 0; i < s.NumFields(); i++ {
+			f := s.Field(i)
+			k, _, ok := rpKind(f.Type(), pkg)
+			if ok && k != "bytes" && !f.Embedded() && t.recvPtr {
+				continue
+			}
+			_, d1 := u.decls.m[smtName(fieldHeap(n, f.Name()))+"!0"]
+			_, d2 := u.decls.m[smtName("sub$"+typeKey(n)+"."+f.Name())]
+			_, d3 := u.decls.m[smtName(fieldHeap(n, f.Name()))+".arr!0"]
+			if d1 || d2 || d3 {
+				return
+			}
+		}
+		if t.recvPtr {
+			for i := 0; i < s.NumFields(); i++ {
+				f := s.Field(i)
+				k, g, ok := rpKind(f.Type(), pkg)
+				if !ok || k == "bytes" || f.Embedded() {
+					continue
+				}
+				hn := smtName(fieldHeap(n, f.Name())) + "!0"
+				if _, declared := u.decls.m[hn]; !declared {
+					continue // never read: the zero value is as good as any
+				}
+				t.fields = append(t.fields, rpVar{Name: f.Name(), Kind: k, GoT: g, Field: true, Val: scalar(tSel(hn, self.S), sortOf(f.Type()), f.Type())})
+			}
+		}
+	}
+	// fresh results
+	ts := u.entry.fork()
+	penv := &specEnv{u: u, st: ts, old: u.entry, vars: map[string]Val{}, pkg: pkg, where: c.Where}
+	for k, v := range env.vars {
+		penv.vars[k] = v
+	}
+	var rvals []Val
+	for i := 0; i < u.sig.Results().Len(); i++ {
+		rT := u.sig.Results().At(i).Type()
+		k, g, ok := rpKind(rT, pkg)
+		if !ok {
+			g = ""
+			switch rT.Underlying().(type) {
+			case *types.Pointer, *types.Map, *types.Chan, *types.Signature:
+				k = "ref"
+			case *types.Interface:
+				k = "ref"
+				if isNamed(rT, "", "error") {
+					k = "error"
+				}
+			default:
+				return
+			}
+		}
+		v := u.freshVal(fmt.Sprintf("replay.r%d", i), rT)
+		ts.assume(u.typeAssume(v))
+		rvals = append(rvals, v)
+		t.results = append(t.results, rpVar{Name: fmt.Sprintf("r%d", i), Kind: k, GoT: g, Val: v})
+	}
+	res := Val{Kind: KTuple, Elems: rvals}
+	if len(rvals) == 1 {
+		res = rvals[0]
+	}
+	u.bindResults(penv, c, u.sig, res)
+	okAll := true
+	func() {
+		defer func() {
+			if r := recover(); r != nil {
+				okAll = false
+			}
+		}()
+		for i, en := range c.Ensures {
+			f, err := u.specBool(penv, en)
+			if err != nil {
+				continue
+			}
+			parts := splitGoal(f)
+			for pi, pt := range parts {
+				lbl := fmt.Sprint(i + 1)
+				if len(parts) > 1 {
+					lbl = fmt.Sprintf("%d.%d", i+1, pi+1)
+				}
+				t.posts[lbl] = pt
+			}
+		}
+	}()
+	if !okAll {
+		return
+	}
+	t.pc = ts.pc[:len(ts.pc):len(ts.pc)]
+	u.replay = t
+}
+
+func hasQuantifier(t Term) bool {
+	return strings.Contains(t, "(forall ") || strings.Contains(t, "(exists ")
+}
+
+// solveModel runs z3-new (then z3, cvc5) on text and returns the get-value pairs of a sat answer.
+func solveModel(text string, secs int) (map[string]string, string) {
+	dir, err := os.MkdirTemp("", "gocv-replay")
+	if err != nil {
+		return nil, "error"
+	}
+	defer os.RemoveAll(dir)
+	f := filepath.Join(dir, "q.smt2")
+	os.WriteFile(f, []byte(text), 0o644)
+	if d := os.Getenv("GOCV_REPLAY_DEBUG"); d != "" {
+		os.MkdirAll(d, 0o755)
+		es, _ := os.ReadDir(d)
+		os.WriteFile(filepath.Join(d, fmt.Sprintf("q%03d.smt2", len(es))), []byte(text), 0o644)
+	}
+	last := "unknown"
+	for _, sr := range solvers {
+		res, out, _ := runSolver(sr, f, time.Duration(secs)*time.Second)
+		last = res
+		if res == "unsat" {
+			return nil, res
+		}
+		if res != "sat" {
+			continue
+		}
+		i := strings.Index(out, "sat")
+		body := strings.TrimSpace(out[i+3:])
+		root := parseSx(body)
+		vals := map[string]string{}
+		if root != nil {
+			for _, k := range root.kids {
+				if len(k.kids) == 2 {
+					vals[k.kids[0].String()] = k.kids[1].String()
+				}
+			}
+		}
+		return vals, "sat"
+	}
+	return nil, last
+}
+
+func modelInt(s string) (int64, bool) {
+	s = strings.TrimSpace(s)
+	if n, ok := isIntLit(s); ok {
+		return n, true
+	}
+	// (- 5) with inner spacing variations
+	x := parseSx(s)
+	if x != nil && len(x.kids) == 2 && x.kids[0].atom == "-" {
+		if n, err := strconv.ParseInt(x.kids[1].atom, 10, 64); err == nil {
+			return -n, true
+		}
+	}
+	if n, err := strconv.ParseUint(s, 10, 64); err == nil {
+		return int64(n), true
+	}
+	return 0, false
+}
+
+type rpConcrete struct {
+	Int   int64
+	UInt  uint64
+	Bool  bool
+	Bytes []byte // string or byte slice content
+}
+
+// tryReplay: see the comment at the top of this file. Returns (confirmed, record for the replay file).
+func tryReplay(u *Unit, prop, name string, o *Obligation, replayDir string) (bool, map[string]any) {
+	// first with every hypothesis (the solvers sometimes do find a model in spite of the quantifiers), then without the
+	// quantified ones
+	ok, info := tryReplayMode(u, prop, name, o, replayDir, true)
+	if ok || info == nil {
+		return ok, info
+	}
+	ok2, info2 := tryReplayMode(u, prop, name, o, replayDir, false)
+	if info2 != nil {
+		info2["first_attempt_with_all_hypotheses"] = map[string]any{"inputs": info["inputs"], "verdict": info["verdict"], "model_search": info["model_search"]}
+		return ok2, info2
+	}
+	return ok, info
+}
+
+func tryReplayMode(u *Unit, prop, name string, o *Obligation, replayDir string, keepQ bool) (bool, map[string]any) {
+	t := u.replay
+	if t == nil {
+		return false, nil
+	}
+	info := map[string]any{"function": u.name}
+	post := ""
+	postLbl := ""
+	if o.Kind == "post" {
+		postLbl = name[strings.LastIndex(name, "#post:")+6:]
+		post = t.posts[postLbl]
+		if post == "" {
+			return false, nil
+		}
+	}
+	// any other kind (loop invariant, call precondition, no-panic condition ...): the failed query still yields a
+	// candidate input; the run is judged against every postcondition clause of the function (and against panicking)
+	elemHeap := "E$uint8!0"
+	for _, v := range append(append([]rpVar{}, t.params...), t.results...) {
+		if v.Kind == "bytes" && v.Val.T != nil {
+			hn, _ := u.elemHeapName(v.Val.T.Underlying().(*types.Slice).Elem())
+			elemHeap = smtName(hn) + "!0"
+			break
+		}
+	}
+	_, haveElems := u.decls.m[elemHeap]
+	const maxLen = 64
+	// ---- A: model search ----
+	var base strings.Builder
+	base.WriteString("(set-option :produce-models true)\n(set-logic ALL)\n")
+	base.WriteString(u.decls.text())
+	for _, a := range u.axioms {
+		if keepQ || !hasQuantifier(a) {
+			base.WriteString("(assert " + a + ")\n")
+		}
+	}
+	if d := u.strDistinctAxiom(); d != "true" {
+		base.WriteString("(assert " + d + ")\n")
+	}
+	for _, p := range o.PC {
+		if keepQ || !hasQuantifier(p) {
+			base.WriteString("(assert " + p + ")\n")
+		}
+	}
+	base.WriteString("(assert (not " + o.Goal + "))\n")
+	all := append(append([]rpVar{}, t.fields...), t.params...)
+	var lenTerms []Term
+	lenOf := func(v rpVar) Term {
+		switch v.Kind {
+		case "bytes":
+			return v.Val.Len
+		case "string":
+			return tApp("slen", v.Val.S)
+		}
+		return ""
+	}
+	for _, v := range all {
+		if v.Name == "" {
+			continue
+		}
+		if l := lenOf(v); l != "" {
+			lenTerms = append(lenTerms, l)
+			base.WriteString(fmt.Sprintf("(assert (<= %s %d))\n", l, maxLen))
+			if v.Kind == "bytes" {
+				base.WriteString(fmt.Sprintf("(assert (<= %s %d))\n", v.Val.Cap, 2*maxLen))
+			}
+		}
+	}
+	q1 := base.String() + "(check-sat)\n"
+	if len(lenTerms) > 0 {
+		q1 += "(get-value (" + strings.Join(lenTerms, " ") + "))\n"
+	}
+	m1, r1 := solveModel(q1, 10)
+	if r1 != "sat" {
+		info["model_search"] = "no model (" + r1 + ") for the failed query" + map[bool]string{true: "", false: " without its quantified hypotheses"}[keepQ] + ", input lengths <= " + fmt.Sprint(maxLen)
+		return false, info
+	}
+	// stage 2: lengths pinned, contents and scalars requested
+	var pins strings.Builder
+	var want []Term
+	lens := map[string]int64{}
+	for _, l := range lenTerms {
+		n, ok := modelInt(m1[parseSx(l).String()])
+		if !ok || n < 0 || n > maxLen {
+			info["model_search"] = "model gives no usable length for " + l
+			return false, info
+		}
+		lens[l] = n
+		pins.WriteString(fmt.Sprintf("(assert (= %s %d))\n", l, n))
+	}
+	elemTerm := func(v rpVar, i int64) Term {
+		if v.Kind == "string" {
+			return tApp("sat", v.Val.S, fmt.Sprint(i))
+		}
+		return tSel(tSel(elemHeap, v.Val.Arr), tAdd(v.Val.Off, fmt.Sprint(i)))
+	}
+	for _, v := range all {
+		if v.Name == "" {
+			continue
+		}
+		switch v.Kind {
+		case "int", "uint", "bool":
+			want = append(want, v.Val.S)
+		case "bytes":
+			want = append(want, v.Val.Arr, v.Val.Off, v.Val.Cap)
+			pins.WriteString(fmt.Sprintf("(assert (not (= %s 0)))\n", v.Val.Arr)) // a real backing array, also for len 0? keep nil possible below
+			fallthrough
+		case "string":
+			if v.Kind == "bytes" && !haveElems {
+				continue
+			}
+			for i := int64(0); i < lens[lenOf(v)]; i++ {
+				e := elemTerm(v, i)
+				pins.WriteString(fmt.Sprintf("(assert (and (<= 0 %s) (<= %s 255)))\n", e, e))
+				want = append(want, e)
+			}
+		}
+	}
+	var m2 map[string]string
+	r2 := "sat"
+	if len(want) > 0 {
+		q2 := base.String() + pins.String() + "(check-sat)\n(get-value (" + strings.Join(want, " ") + "))\n"
+		m2, r2 = solveModel(q2, 10)
+		if r2 != "sat" {
+			// retry without the non-nil pin on byte slices
+			q2 = base.String() + strings.ReplaceAll(pins.String(), "(assert (not (= ", "(assert (or true (= ") + "(check-sat)\n(get-value (" + strings.Join(want, " ") + "))\n"
+			q2 = strings.ReplaceAll(q2, " 0)))\n(assert (and", " 0))\n(assert (and")
+			m2, r2 = nil, "unknown"
+		}
+	}
+	if r2 != "sat" {
+		info["model_search"] = "no model (" + r2 + ") once the input lengths are fixed"
+		return false, info
+	}
+	get := func(tm Term) string { return m2[parseSx(tm).String()] }
+	conc := map[string]rpConcrete{}
+	inputsOut := map[string]any{}
+	var concPins []Term // the concrete inputs as SMT facts (for the judgement)
+	for _, v := range all {
+		if v.Name == "" {
+			continue
+		}
+		key := v.Name
+		if v.Field {
+			key = "recv." + v.Name
+		}
+		switch v.Kind {
+		case "int", "uint":
+			n, ok := modelInt(get(v.Val.S))
+			if !ok {
+				// values above MaxInt64 for uint64
+				if un, err := strconv.ParseUint(strings.TrimSpace(get(v.Val.S)), 10, 64); err == nil {
+					conc[key] = rpConcrete{UInt: un, Int: int64(un)}
+					inputsOut[key] = un
+					concPins = append(concPins, tEq(v.Val.S, fmt.Sprint(un)))
+					continue
+				}
+				info["model_search"] = "model gives no value for " + key
+				return false, info
+			}
+			conc[key] = rpConcrete{Int: n, UInt: uint64(n)}
+			inputsOut[key] = n
+			concPins = append(concPins, tEq(v.Val.S, tInt(n)))
+		case "bool":
+			b := strings.TrimSpace(get(v.Val.S)) == "true"
+			conc[key] = rpConcrete{Bool: b}
+			inputsOut[key] = b
+			if b {
+				concPins = append(concPins, v.Val.S)
+			} else {
+				concPins = append(concPins, tNot(v.Val.S))
+			}
+		case "bytes", "string":
+			n := lens[lenOf(v)]
+			bs := make([]byte, n)
+			concPins = append(concPins, tEq(lenOf(v), fmt.Sprint(n)))
+			for i := int64(0); i < n; i++ {
+				if v.Kind == "bytes" && !haveElems {
+					break
+				}
+				x, ok := modelInt(get(elemTerm(v, i)))
+				if !ok || x < 0 || x > 255 {
+					x = 0
+				}
+				bs[i] = byte(x)
+				concPins = append(concPins, tEq(elemTerm(v, i), fmt.Sprint(x)))
+			}
+			conc[key] = rpConcrete{Bytes: bs}
+			inputsOut[key] = hex.EncodeToString(bs)
+			if v.Kind == "bytes" {
+				concPins = append(concPins, tNot(tEq(v.Val.Arr, "0")), tLe(v.Val.Len, v.Val.Cap))
+			}
+		}
+	}
+	info["inputs"] = inputsOut
+	// ---- B: run the real code ----
+	src := t.testSource(conc)
+	os.MkdirAll(replayDir, 0o755)
+	testPath := filepath.Join(replayDir, smtName(strings.ReplaceAll(name, "#", "__"))+"_replay_test.go.txt")
+	os.WriteFile(testPath, []byte(src), 0o644)
+	info["test"] = testPath
+	info["pkg_dir"] = t.pkgDir
+	info["run"] = "./check --replay <this file>   (go test -overlay: the test is injected into " + t.pkgDir + ", nothing is written to /repo)"
+	out, err := runReplayTest(t.pkgDir, src)
+	if err != nil {
+		info["run_error"] = err.Error() + "\n" + tailLines(out, 15)
+		return false, info
+	}
+	var obs map[string]any
+	if err := json.Unmarshal([]byte(out), &obs); err != nil {
+		info["run_error"] = "unreadable output: " + out
+		return false, info
+	}
+	info["observed"] = obs
+	// ---- C: judge ----
+	if p, panicked := obs["panic"]; panicked {
+		want := map[string]string{"bounds": "out of range", "nil": "nil pointer", "nilcheck": "nil pointer", "div": "divide by zero", "mapnil": "nil map"}[o.Kind]
+		if o.Kind != "post" && want != "" && !strings.Contains(fmt.Sprint(p), want) {
+			info["verdict"] = fmt.Sprintf("not judged: the real function panics on this input (%v), which is not the kind of failure the obligation is about", p)
+			return false, info
+		}
+		if o.Kind != "post" {
+			info["verdict"] = fmt.Sprintf("confirmed: the real function panics on this input (%v)", p)
+			return true, info
+		}
+		info["verdict"] = fmt.Sprintf("the real function panics on this input (%v); the failed obligation is a postcondition, which a panic neither meets nor refutes", p)
+		return false, info
+	}
+	for _, v := range t.params {
+		if v.Kind == "bytes" && v.Name != "" {
+			if un, _ := obs["unchanged_"+v.Name].(bool); !un {
+				info["verdict"] = "not judged: the function changed its input slice " + v.Name + " (the judgement step assumes inputs are left as they were)"
+				return false, info
+			}
+		}
+	}
+	if un, present := obs["unchanged_recv"].(bool); present && !un {
+		info["verdict"] = "not judged: the function changed its receiver (the judgement step assumes a function that changes nothing)"
+		return false, info
+	}
+	var resPins []Term
+	for i, r := range t.results {
+		ov, ok := obs[fmt.Sprintf("r%d", i)].(map[string]any)
+		if !ok {
+			info["verdict"] = "not judged: result missing in the run's output"
+			return false, info
+		}
+		switch r.Kind {
+		case "int", "uint":
+			s, _ := ov["v"].(string)
+			if strings.HasPrefix(s, "-") {
+				resPins = append(resPins, tEq(r.Val.S, "(- "+s[1:]+")"))
+			} else {
+				resPins = append(resPins, tEq(r.Val.S, s))
+			}
+		case "bool":
+			if b, _ := ov["v"].(bool); b {
+				resPins = append(resPins, r.Val.S)
+			} else {
+				resPins = append(resPins, tNot(r.Val.S))
+			}
+		case "string":
+			hx, _ := ov["hex"].(string)
+			bs, _ := hex.DecodeString(hx)
+			resPins = append(resPins, tEq(tApp("slen", r.Val.S), fmt.Sprint(len(bs))))
+			for k, b := range bs {
+				resPins = append(resPins, tEq(tApp("sat", r.Val.S, fmt.Sprint(k)), fmt.Sprint(b)))
+			}
+		case "bytes":
+			hx, _ := ov["hex"].(string)
+			bs, _ := hex.DecodeString(hx)
+			isNil, _ := ov["nil"].(bool)
+			capv, _ := ov["cap"].(float64)
+			resPins = append(resPins, tEq(r.Val.Len, fmt.Sprint(len(bs))), tEq(r.Val.Cap, fmt.Sprint(int64(capv))))
+			if isNil {
+				resPins = append(resPins, tEq(r.Val.Arr, "0"), tEq(r.Val.Off, "0"))
+				break
+			}
+			alias, _ := ov["alias"].(string)
+			aoff, _ := ov["alias_off"].(float64)
+			done := false
+			for _, p := range t.params {
+				if p.Kind == "bytes" && p.Name == alias && alias != "" {
+					resPins = append(resPins, tEq(r.Val.Arr, p.Val.Arr), tEq(r.Val.Off, tAdd(p.Val.Off, fmt.Sprint(int64(aoff)))))
+					done = true
+				}
+			}
+			if !done {
+				resPins = append(resPins, tNot(tEq(r.Val.Arr, "0")))
+				for _, p := range t.params {
+					if p.Kind == "bytes" && p.Name != "" {
+						resPins = append(resPins, tNot(tEq(r.Val.Arr, p.Val.Arr)))
+					}
+				}
+				if haveElems {
+					for k, b := range bs {
+						resPins = append(resPins, tEq(tSel(tSel(elemHeap, r.Val.Arr), tAdd(r.Val.Off, fmt.Sprint(k))), fmt.Sprint(b)))
+					}
+				}
+			}
+		case "error", "ref":
+			if isNil, _ := ov["nil"].(bool); isNil {
+				resPins = append(resPins, tEq(r.Val.S, "0"))
+			} else {
+				resPins = append(resPins, tNot(tEq(r.Val.S, "0")))
+			}
+		}
+	}
+	// the judgement query: every hypothesis of the entry state, the concrete inputs, the observed outputs. It is built
+	// twice: in full, and without the quantified hypotheses (for the consistency check only)
+	build := func(full bool) string {
+		var jb strings.Builder
+		jb.WriteString("(set-logic ALL)\n")
+		jb.WriteString(u.decls.text())
+		for _, a := range u.axioms {
+			if full || !hasQuantifier(a) {
+				jb.WriteString("(assert " + a + ")\n")
+			}
+		}
+		if d := u.strDistinctAxiom(); d != "true" {
+			jb.WriteString("(assert " + d + ")\n")
+		}
+		for _, p := range t.pc {
+			if full || !hasQuantifier(p) {
+				jb.WriteString("(assert " + p + ")\n")
+			}
+		}
+		for _, p := range concPins {
+			jb.WriteString("(assert " + p + ")\n")
+		}
+		for _, p := range resPins {
+			jb.WriteString("(assert " + p + ")\n")
+		}
+		return jb.String()
+	}
+	// consistency first: the inputs and outputs of a real run must be a possible state of the contract's world,
+	// otherwise "unsat" below would say nothing about the clause
+	_, sane := solveModel(build(true)+"(check-sat)\n", 5)
+	if sane != "sat" && sane != "unsat" {
+		_, sane = solveModel(build(false)+"(check-sat)\n", 5)
+		if sane == "sat" {
+			sane = "sat (ground part; the quantified hypotheses left the full query undecided)"
+		}
+	}
+	info["consistency"] = "inputs and observed outputs together with the entry hypotheses: " + sane
+	if !strings.HasPrefix(sane, "sat") {
+		info["verdict"] = "not judged: the concrete inputs and outputs are not shown consistent with the function's preconditions and type facts (" + sane + ")"
+		return false, info
+	}
+	var order []string
+	if postLbl != "" {
+		order = append(order, postLbl)
+	}
+	for _, l := range sortedKeys(t.posts) {
+		if l != postLbl {
+			order = append(order, l)
+		}
+	}
+	words := map[string]string{"unsat": "cannot hold", "sat": "holds", "unknown": "undecided", "timeout": "undecided", "error": "solver error"}
+	judged := map[string]string{}
+	for _, l := range order {
+		_, jr := solveModel(build(true)+"(assert "+t.posts[l]+")\n(check-sat)\n", 10)
+		judged["post:"+l] = words[jr]
+		if jr == "unsat" {
+			info["judgement"] = judged
+			info["refuted_clause"] = u.name + "#post:" + l
+			info["verdict"] = "confirmed: on this input the real function returns values that postcondition clause " + l + " excludes (clause instantiated on the concrete inputs and the observed outputs, all hypotheses present: cannot hold)"
+			return true, info
+		}
+	}
+	info["judgement"] = judged
+	info["verdict"] = "not reproduced: the real function's answer on the candidate input contradicts no postcondition clause (the candidate came from a weakened query)"
+	return false, info
+}
+
+func tailLines(s string, n int) string {
+	ls := strings.Split(strings.TrimRight(s, "\n"), "\n")
+	if len(ls) > n {
+		ls = ls[len(ls)-n:]
+	}
+	return strings.Join(ls, "\n")
+}
+
+func goBytesLit(b []byte) string {
+	var sb strings.Builder
+	sb.WriteString("[]byte{")
+	for i, x := range b {
+		if i > 0 {
+			sb.WriteString(", ")
+		}
+		fmt.Fprintf(&sb, "0x%02x", x)
+	}
+	sb.WriteString("}")
+	return sb.String()
+}
+
+// testSource renders the in-package test that calls the function with the concrete inputs and prints what it observed.
+func (t *replayTpl) testSource(conc map[string]rpConcrete) string {
+	var b strings.Builder
+	fmt.Fprintf(&b, "package %s\n\n", t.pkgName)
+	b.WriteString("// Generated by /verif/gocv (replay of a solver model against the real code). Injected with go test -overlay.\n\n")
+	b.WriteString("import (\n\t\"encoding/hex\"\n\t\"encoding/json\"\n\t\"fmt\"\n\t\"testing\"\n\t\"unsafe\"\n)\n\n")
+	b.WriteString("var _ = hex.EncodeToString\nvar _ = unsafe.Pointer(nil)\n\n")
+	b.WriteString("func TestGocvReplay(t *testing.T) {\n\tobs := map[string]any{}\n")
+	lit := func(v rpVar, key string) string {
+		c := conc[key]
+		switch v.Kind {
+		case "int":
+			return fmt.Sprintf("%s(%d)", v.GoT, c.Int)
+		case "uint":
+			return fmt.Sprintf("%s(%d)", v.GoT, c.UInt)
+		case "bool":
+			return fmt.Sprintf("%s(%v)", v.GoT, c.Bool)
+		case "string":
+			return fmt.Sprintf("%s(%s)", v.GoT, goBytesLit(c.Bytes))
+		case "bytes":
+			return goBytesLit(c.Bytes)
+		}
+		return "nil"
+	}
+	var args []string
+	for i, p := range t.params {
+		if p.Name == "" {
+			zero := map[string]string{"int": "0", "uint": "0", "bool": "false", "string": "\"\"", "bytes": "nil"}[p.Kind]
+			args = append(args, zero)
+			continue
+		}
+		vn := fmt.Sprintf("in%d", i)
+		fmt.Fprintf(&b, "\t%s := %s // %s\n", vn, lit(p, p.Name), p.Name)
+		if p.Kind == "bytes" {
+			fmt.Fprintf(&b, "\t%s_before := append([]byte(nil), %s...)\n", vn, vn)
+		}
+		args = append(args, vn)
+	}
+	call := t.fn + "(" + strings.Join(args, ", ") + ")"
+	if t.recvT != "" {
+		if t.recvPtr {
+			fmt.Fprintf(&b, "\trecv := new(%s)\n", t.recvT)
+		} else {
+			fmt.Fprintf(&b, "\tvar recv %s\n", t.recvT)
+		}
+		for _, f := range t.fields {
+			fmt.Fprintf(&b, "\trecv.%s = %s\n", f.Name, lit(f, "recv."+f.Name))
+		}
+		for _, f := range t.fields {
+			fmt.Fprintf(&b, "\tbefore_%s := recv.%s\n", f.Name, f.Name)
+		}
+		call = "recv." + call
+	}
+	b.WriteString("\tfunc() {\n\t\tdefer func() {\n\t\t\tif r := recover(); r != nil {\n\t\t\t\tobs[\"panic\"] = fmt.Sprint(r)\n\t\t\t}\n\t\t}()\n")
+	var rs []string
+	for i := range t.results {
+		rs = append(rs, fmt.Sprintf("r%d", i))
+	}
+	if len(rs) > 0 {
+		fmt.Fprintf(&b, "\t\t%s := %s\n", strings.Join(rs, ", "), call)
+	} else {
+		fmt.Fprintf(&b, "\t\t%s\n", call)
+	}
+	for i, r := range t.results {
+		n := fmt.Sprintf("r%d", i)
+		switch r.Kind {
+		case "int":
+			fmt.Fprintf(&b, "\t\tobs[%q] = map[string]any{\"v\": fmt.Sprint(int64(%s))}\n", n, n)
+		case "uint":
+			fmt.Fprintf(&b, "\t\tobs[%q] = map[string]any{\"v\": fmt.Sprint(uint64(%s))}\n", n, n)
+		case "bool":
+			fmt.Fprintf(&b, "\t\tobs[%q] = map[string]any{\"v\": bool(%s)}\n", n, n)
+		case "string":
+			fmt.Fprintf(&b, "\t\tobs[%q] = map[string]any{\"hex\": hex.EncodeToString([]byte(string(%s))), \"text\": fmt.Sprintf(\"%%q\", string(%s))}\n", n, n, n)
+		case "bytes":
+			fmt.Fprintf(&b, "\t\t{\n\t\t\to := map[string]any{\"hex\": hex.EncodeToString(%s), \"nil\": %s == nil, \"cap\": cap(%s)}\n", n, n, n)
+			for j, p := range t.params {
+				if p.Kind == "bytes" && p.Name != "" {
+					in := fmt.Sprintf("in%d", j)
+					fmt.Fprintf(&b, "\t\t\tif %s != nil && cap(%s) > 0 {\n\t\t\t\tlo := uintptr(unsafe.Pointer(unsafe.SliceData(%s)))\n\t\t\t\tp := uintptr(unsafe.Pointer(unsafe.SliceData(%s)))\n\t\t\t\tif p >= lo && p <= lo+uintptr(cap(%s)) {\n\t\t\t\t\to[\"alias\"] = %q\n\t\t\t\t\to[\"alias_off\"] = int(p - lo)\n\t\t\t\t}\n\t\t\t}\n", n, in, in, n, in, p.Name)
+				}
+			}
+			fmt.Fprintf(&b, "\t\t\tobs[%q] = o\n\t\t}\n", n)
+		case "error":
+			fmt.Fprintf(&b, "\t\tif %s == nil {\n\t\t\tobs[%q] = map[string]any{\"nil\": true}\n\t\t} else {\n\t\t\tobs[%q] = map[string]any{\"nil\": false, \"text\": %s.Error()}\n\t\t}\n", n, n, n, n)
+		case "ref":
+			fmt.Fprintf(&b, "\t\tobs[%q] = map[string]any{\"nil\": %s == nil}\n", n, n)
+		}
+	}
+	b.WriteString("\t}()\n")
+	for i, p := range t.params {
+		if p.Kind == "bytes" && p.Name != "" {
+			fmt.Fprintf(&b, "\tobs[\"unchanged_%s\"] = string(in%d) == string(in%d_before)\n", p.Name, i, i)
+		}
+	}
+	if t.recvT != "" {
+		conds := []string{"true"}
+		for _, f := range t.fields {
+			conds = append(conds, fmt.Sprintf("before_%s == recv.%s", f.Name, f.Name))
+		}
+		fmt.Fprintf(&b, "\tobs[\"unchanged_recv\"] = %s\n", strings.Join(conds, " && "))
+	}
+	b.WriteString("\tout, _ := json.Marshal(obs)\n\tfmt.Println(\"GOCV-REPLAY \" + string(out))\n}\n")
+	return b.String()
+}
+
+// runReplayTest injects src as a test file of the package in dir (overlay) and returns the JSON the test printed.
+func runReplayTest(dir, src string) (string, error) {
+	tmp, err := os.MkdirTemp("", "gocv-replay-run")
+	if err != nil {
+		return "", err
+	}
+	defer os.RemoveAll(tmp)
+	tf := filepath.Join(tmp, "zz_gocv_replay_test.go")
+	os.WriteFile(tf, []byte(src), 0o644)
+	ov, _ := json.Marshal(map[string]any{"Replace": map[string]string{filepath.Join(dir, "zz_gocv_replay_test.go"): tf}})
+	ovf := filepath.Join(tmp, "ov.json")
+	os.WriteFile(ovf, ov, 0o644)
+	ctx, cancel := context.WithTimeout(context.Background(), 180*time.Second)
+	defer cancel()
+	cmd := exec.CommandContext(ctx, "go", "test", "-overlay", ovf, "-vet=off", "-count=1", "-timeout", "60s", "-run", "^TestGocvReplay$", "-v", ".")
+	cmd.Dir = dir
+	cmd.Env = append(os.Environ(), "GOFLAGS=-mod=mod", "GOPROXY=off")
+	var out bytes.Buffer
+	cmd.Stdout = &out
+	cmd.Stderr = &out
+	runErr := cmd.Run()
+	for _, l := range strings.Split(out.String(), "\n") {
+		if i := strings.Index(l, "GOCV-REPLAY "); i >= 0 {
+			return strings.TrimSpace(l[i+len("GOCV-REPLAY "):]), nil
+		}
+	}
+	if runErr == nil {
+		runErr = fmt.Errorf("the replay test printed nothing")
+	}
+	return out.String(), runErr
+}
+
+var _ = sort.Strings
